@@ -128,7 +128,10 @@ func TestVerifC17Ipset(t *testing.T) {
 		var pool []netip.Prefix
 		for i := 0; i < cnt; i++ {
 			var p netip.Prefix
-			kind := r.Intn(8)
+			kind := r.Intn(9)
+			if kind == 8 {
+				kind = 0
+			}
 			if len(pool) == 0 && kind >= 2 && kind <= 5 {
 				kind = 0
 			}
@@ -163,6 +166,18 @@ func TestVerifC17Ipset(t *testing.T) {
 				cidrs = append(cidrs, malformed[r.Intn(len(malformed))])
 				nb++
 				continue
+			case 7: // an IPv4-mapped IPv6 prefix, any length (also shorter than /96)
+				var b [4]byte
+				r.Read(b[:])
+				if r.Intn(2) == 0 {
+					b[0], b[1] = 10, byte(r.Intn(2))
+				}
+				a16 := netip.AddrFrom4(b).As16()
+				bits := []int{0, 8, 64, 95, 96, 97, 104, 120, 128}[r.Intn(9)]
+				if r.Intn(3) == 0 {
+					bits = r.Intn(129)
+				}
+				p = netip.PrefixFrom(netip.AddrFrom16(a16), bits)
 			default:
 				is4 := r.Intn(2) == 0
 				p = netip.PrefixFrom(randAddr(r, is4), genBits(r, is4))
@@ -190,6 +205,9 @@ func TestVerifC17Ipset(t *testing.T) {
 				}
 				a := bigAddr(p.Addr().Is4(), v)
 				probes = append(probes, a)
+				if a.Is4In6() && r.Intn(2) == 0 {
+					probes = append(probes, a.Unmap()) // the IPv4 address a mapped range "carries"
+				}
 				if a.Is4() && r.Intn(3) == 0 {
 					probes = append(probes, netip.AddrFrom16(a.As16())) // 4-in-6 form
 				}
